@@ -8,7 +8,9 @@
 // (uninterpreted), the session stream delivers an unknown infinite sequence of read results, and
 // `close(code)` on the QUIC connection carries a ghost log of the codes it was given.
 use vstd::prelude::*;
+use vstd::std_specs::cmp::*;
 
+// verif: counter-overflow-undecided
 verus! {
 
 #[derive(Clone, Copy)]
@@ -60,11 +62,34 @@ impl Headers {
 }
 
 // session.rs SessionResponse: Ok iff `:status` present and a valid status (unit `session`)
-struct StatusCode { v: u16 }
+//@ extract wtransport-proto/src/ids.rs >> struct StatusCode
+//@ noderive
+//@ end
+impl Clone for StatusCode { fn clone(&self) -> (r: StatusCode) ensures r == *self { StatusCode(self.0) } }
+impl Copy for StatusCode {}
+impl PartialEqSpecImpl for StatusCode {
+    closed spec fn obeys_eq_spec() -> bool { true }
+    closed spec fn eq_spec(&self, other: &StatusCode) -> bool { self.0 == other.0 }
+}
+impl PartialEq for StatusCode { fn eq(&self, other: &StatusCode) -> (r: bool) { self.0 == other.0 } }
 impl StatusCode {
+//@ extract wtransport-proto/src/ids.rs >> impl StatusCode >> const OK
+//@ optional
+//@ end
+//@ extract wtransport-proto/src/ids.rs >> impl StatusCode >> const FORBIDDEN
+//@ optional
+//@ end
+//@ extract wtransport-proto/src/ids.rs >> impl StatusCode >> const NOT_FOUND
+//@ optional
+//@ end
+//@ extract wtransport-proto/src/ids.rs >> impl StatusCode >> const TOO_MANY_REQUESTS
+//@ optional
+//@ end
     // ids.rs: 200..=299 (unit `ids` / Kani p_statuscode_*)
     #[verifier::external_body]
-    fn is_successful(&self) -> (r: bool) ensures r == (200 <= self.v <= 299) { unimplemented!() }
+    fn is_successful(self) -> (r: bool) ensures r == (200 <= self.0 <= 299) { unimplemented!() }
+    #[verifier::external_body]
+    fn into_inner(self) -> (r: u16) ensures r == self.0 { unimplemented!() }
 }
 struct SessionResponseProto { status: StatusCode, h: Headers }
 struct HeadersParseError;
@@ -72,7 +97,7 @@ uninterp spec fn response_of(headers: Headers) -> Result<SessionResponseProto, H
 impl SessionResponseProto {
     #[verifier::external_body]
     fn try_from(headers: Headers) -> (r: Result<SessionResponseProto, HeadersParseError>) ensures r == response_of(headers) { unimplemented!() }
-    fn code(&self) -> (r: &StatusCode) ensures *r == self.status { &self.status }
+    fn code(&self) -> (r: StatusCode) ensures r == self.status { self.status }
     fn headers(&self) -> (r: &Headers) ensures *r == self.h { &self.h }
     uninterp spec fn ok_spec() -> SessionResponseProto;
     #[verifier::external_body]
@@ -217,7 +242,7 @@ spec fn response_verdict(res: Result<Frame, ProtoReadError>) -> Verdict {
                 Ok(h) => match response_of(h) {
                     // missing / non-numeric / out-of-range status: malformed message
                     Err(_) => Verdict::LocalH3(ErrorCode::Message),
-                    Ok(resp) => Verdict::Status(resp.status.v),
+                    Ok(resp) => Verdict::Status(resp.status.0),
                 },
             } },
     }
@@ -263,6 +288,8 @@ spec fn connect_post(inputs: ConnectInputs, r: Result<Connection, ConnectingErro
     }
 }
 
+struct EndpointClient;
+impl EndpointClient {
 //@ extract wtransport/src/endpoint.rs >> impl Endpoint<endpoint_side::Client> >> fn connect
 //@ deawait
 //@ expand_matches
@@ -284,6 +311,7 @@ spec fn connect_post(inputs: ConnectInputs, r: Result<Connection, ConnectingErro
 //@ ensures
 //@ | connect_post(inputs, r, the_driver()),
 //@ end
+}
 
 // ---- server side: answering a session request ---------------------------------------------------------
 //@ extract wtransport/src/endpoint.rs >> struct SessionRequest
